@@ -1157,6 +1157,13 @@ func (r *run) failedStart(kind string) error {
 		injected = faultError(strings.TrimSuffix(strings.TrimSuffix(kind, "Read"), "ReadErr"))
 		pc.InjectReadError(injected)
 		srv.PacketConn = pc
+	case "readerWithoutPacketConn": // a generic PacketConn, but the decorated Reader only knows ReadUDP/ReadTCP
+		pc := memnet.NewPacketConn(nil, "", memnet.UDPAddr(53))
+		holder = pc
+		srv.PacketConn = pc
+		savedDeco := srv.DecorateReader
+		srv.DecorateReader = func(inner dns.Reader) dns.Reader { return plainReader{inner} }
+		defer func() { srv.DecorateReader = savedDeco }()
 	case "nilListeners":
 	case "badAddrTCP":
 		listen, srv.Net, srv.Addr = true, "tcp", "127.0.0.1:99999"
@@ -1219,6 +1226,9 @@ func (r *run) failedStart(kind string) error {
 	srv.Listener, srv.PacketConn, srv.NotifyStartedFunc = savedL, savedP, savedNotify
 	return nil
 }
+
+// plainReader hides the optional ReadPacketConn method of the server's default reader.
+type plainReader struct{ dns.Reader }
 
 // openTransport reports which of the server's own sockets is still open right now ("" = none).
 func (r *run) openTransport() string {
